@@ -407,12 +407,96 @@ class DirectoryMembers(Job):
         return None
 
 
+class WireSamples(Job):
+    """CONCRETE SAMPLES, not solver-decided (json is C code the engine cannot enter): text messages and offered names travel from the real
+    Sender._build_offer/_send_data through the real util.dict_to_bytes / bytes_to_dict into the real Receiver._parse_offer: the text printed is exactly
+    repr(text)[1:-1] (the receiver's terminal-safe escaping) of the text sent, the offered name arrives code point for code point.  The samples are
+    the classes a transformation on the way could confuse: non-NFC sequences, compatibility characters, astral code points, quotes, backslashes,
+    control characters, lone surrogates are excluded (not encodable)."""
+    name = "wire_samples_text_and_names"
+    functions = ["cli.cmd_send.Sender._build_offer/_send_data", "util.dict_to_bytes/bytes_to_dict (real json)", "cli.cmd_receive.Receiver._parse_offer/_handle_text/_handle_file/_handle_directory"]
+    shadows = ["cmd_receive.os / estimate_free_space (C05 recorder) for the name samples"]
+    TEXTS = ["", "hello", "e\u0301", "\u00e9", "10 \u212b = 1 nm, 5 \u2126", "\ufb01", "\u1e9b\u0323", "\U0001f600 and \U00010400", "it's \"quoted\"", "back\\slash \\u0041",
+             "line1\nline2\r\ttab", "\x1b[31mred\x1b[0m", "\x00\x7f\x80\x9f", "\u200b\u202e\ufeff", "\uff21\uff22", " trailing ", "{\"offer\": 1}", "\u0041\u030a\u0327"]
+    NAMES = ["plain.txt", "re\u0301sume\u0301 \u212b.txt", "\u00e9.txt", "\ufb01le", "\U0001f600.bin", "a b", "it's", "x\u200by", "\uff21", "n\u0303"]
+    must_reach = ("nt:sample",)
+    bounds = dict(texts=len(TEXTS), names=len(NAMES), note="concrete samples through the real json round trip; supplementary to the solver-decided kernels")
+
+    def verdict(self, kind, i):
+        from harness import c05
+        from wormhole.util import bytes_to_dict
+        sent = []
+        w = SimpleNamespace(send_message=sent.append)
+        if kind == 0:
+            text = self.TEXTS[i]
+            sargs = SimpleNamespace(text=text, what=None, stderr=io.StringIO(), stdout=io.StringIO(), timing=DebugTiming(), cwd="/w")
+            snd = CS.Sender(sargs, Clock())
+            if text == "":
+                offer = {"message": text}         # (_build_offer would prompt for empty text)
+            else:
+                offer, fd = snd._build_offer()
+            snd._send_data({"offer": offer}, w)
+        else:
+            name = self.NAMES[i]
+            sargs = SimpleNamespace(text=None, what=name, stderr=io.StringIO(), stdout=io.StringIO(), timing=DebugTiming(), cwd="/w")
+            snd = CS.Sender(sargs, Clock())
+            key = "file" if kind == 1 else "directory"
+            body = {"filename": name, "filesize": 3} if kind == 1 else {"mode": "zipfile/deflated", "dirname": name, "zipsize": 3, "numbytes": 3, "numfiles": 1}
+            snd._send_data({"offer": {key: body}}, w)
+        them = bytes_to_dict(sent[0])["offer"]
+        out = io.StringIO()
+        rargs = SimpleNamespace(relay_url="ws://x", output_file=None, cwd="/w", accept_file=True, stderr=io.StringIO(), stdout=out, timing=DebugTiming(), hide_progress=True)
+        r = CR.Receiver(rargs)
+        back = []
+        w2 = SimpleNamespace(send_message=back.append)
+        if kind == 0:
+            r._parse_offer(them, w2)
+            want = repr(self.TEXTS[i])[1:-1] + "\n"
+            if out.getvalue() != want:
+                return "text %r was shown as %r, expected %r" % (self.TEXTS[i], out.getvalue(), want)
+            if len(back) != 1 or bytes_to_dict(back[0]) != {"answer": {"message_ack": "ok"}}:
+                return "text %r: no message_ack" % (self.TEXTS[i],)
+            return None
+        import posixpath
+        fpath = SimpleNamespace(**{k: getattr(posixpath, k) for k in ("join", "basename", "abspath", "normpath", "dirname", "sep", "split")},
+                                exists=lambda p: False, isdir=lambda p: False, isfile=lambda p: False)
+        with loader.shadow((CR, "os", SimpleNamespace(path=fpath, sep="/")), (CR, "estimate_free_space", lambda p: None),
+                           (CR, "open", lambda *a, **k: io.BytesIO())):
+            try:
+                if kind == 1:
+                    r._handle_file(them)
+                else:
+                    r._handle_directory(them)
+            finally:
+                pass
+        want = "/w/" + self.NAMES[i]
+        if r.abs_destname != want:
+            return "offered name %r arrives as destination %r, expected %r" % (self.NAMES[i], r.abs_destname, want)
+        return None
+
+    def scenario(self):
+        kind = eng().choose(3, "kind")
+        n = len(self.TEXTS) if kind == 0 else len(self.NAMES)
+        i = eng().choose(n, "i")
+        eng().inputs.update(kind=kind, i=i)
+        v = self.verdict(kind, i)
+        check(v is None, "wire sample: %s" % v)
+        eng().note("nt:sample")
+
+    def key(self, inp, label):
+        return "wire sample (text/name altered between send and receive)"
+
+    def replay(self, inp, label):
+        return self.verdict(inp["kind"], inp["i"])
+
+
 def jobs(tier):
     thorough = tier == "thorough"
-    return [ReceiveFile(n) for n in ((1, 2, 3, 4) if thorough else (1, 2, 3))] + [SenderAck(), DirectoryMembers()]
+    return [ReceiveFile(n) for n in ((1, 2, 3, 4) if thorough else (1, 2, 3))] + [SenderAck(), DirectoryMembers(), WireSamples()]
 
 
 ASSUMPTIONS = [
+    "text messages and offered names: 18+10 concrete samples through the real json round trip (job wire_samples_*; json is C code, so this part is sampled, not solver-decided)",
     "kernel-level claim only: the accounting and ordering that make 'success' imply byte-exactness (receiver: byte count, hash coverage, rename after completion, ack only on "
     "success; sender: hash of what was handed to the pipe, ack/hash evaluation). Outside the claim: zipstream/zipfile/zlib round trip of directory trees, terminal escaping of text "
     "messages, tqdm, real sockets, and the offer/answer orchestration of send()/receive()",
